@@ -28,7 +28,11 @@ from props import gridlib as G
 ID = 'C08'
 MODULE = 'PyTough.Props.C08'
 TARGETS = ['PyTough.Props.C08', 'drv_c08']
-THEOREMS = ['Props.C08.' + t for t in []]
+THEOREMS = ['Props.C08.' + t for t in [
+    'consistent_of_inv', 'inv_empty', 'inv_step_core', 'inv_run', 'consistent_after_any_history',
+    'rename_loses_no_block', 'rename_keeps_inv', 'block_index_correct', 'connection_index_correct',
+    'Examples.F1_add_block_replaces_connected_block', 'Examples.F2_rocktype_replaced_while_in_use',
+    'Examples.F3_delete_rocktype_in_use']]
 LEVEL_TEXT = ''
 LEVEL_NOTE = ''
 TECHNIQUE = 'Lean 4 proof (invariant by induction over operation sequences) about an executable heap model of the t2grid registry + differential correspondence with the real t2grid after every operation'
